@@ -774,6 +774,7 @@ func scenarioC15(c *RunCtx) {
 		case 2:
 			s.Faults = []FaultSpec{{Kind: FaultCancelEvalExit, Trial: t.Draw("f.trial", s.Opts.NumRuns), Gen: t.Draw("f.gen", s.Opts.NumGenerations)}}
 		}
+		s.WinnerRecordWhenUnsolved = t.Chance("winnerRecordWhenUnsolved", 1, 2)
 		c.Sample = "experiment: " + s.Describe()
 		seedLib(int64(t.Draw("exec.libseed", 1<<31)))
 		s.Run(c.LibSoft)
